@@ -67,12 +67,23 @@ def run_gotrans():
     if not os.path.isdir(src):
         return True, "no translator"
     with Lock("gotrans"):
+        # cache: skip when neither the translator nor any non-test Go source changed
+        srcs = [f for f in glob.glob(os.path.join(REPO, "v2", "**", "*.go"), recursive=True) if not f.endswith("_test.go")]
+        srcs += glob.glob(os.path.join(src, "*.go"))
+        stamp = os.path.join(BUILD, "gotrans.stamp")
+        h = file_hash(srcs)
+        gen = os.path.join(COQ, "Gen")
+        if (os.path.exists(stamp) and open(stamp).read() == h
+                and all(os.path.exists(os.path.join(gen, f)) for f in ("Consts.v", "Names.v", "Structure.v", "Levels.v"))):
+            return True, "cached"
         exe = os.path.join(BUILD, "gotrans")
         rc, out = sh([GO, "build", "-o", exe, "."], cwd=src, env=GOENV, timeout=600)
         if rc != 0:
             return False, out
         rc, out = sh([exe, "-repo", os.path.join(REPO, "v2"), "-out", os.path.join(COQ, "Gen")],
                      cwd=os.path.join(REPO, "v2"), env=GOENV, timeout=900)
+        if rc == 0:
+            open(stamp, "w").write(h)
         return rc == 0, out
 
 
